@@ -41,7 +41,8 @@ var Decs = []Dec{{"", 0}, {"0", 0}, {"-73.99", -73.99}, {"40.75", 40.75}, {"100.
 	{"-0.5", -0.5}, {" 12.25 ", 12.25}, {"179.999999", 179.999999}, {"-90", -90}}
 
 // Dates in increasing order (token order = date order).
-var Dates = []string{"", "20240101", "20240115", "20240310", "20240311", "20240630", "20241103", "20250101", "20251231"}
+// 20240310 / 20241103: US DST starts / ends; 20240407 / 20240929: New Zealand DST ends / starts.
+var Dates = []string{"", "20240101", "20240115", "20240310", "20240311", "20240407", "20240630", "20240929", "20241103", "20250101", "20251231"}
 
 func init() {
 	for _, p := range [][]string{ServiceIDs, ShapeIDs} {
